@@ -387,11 +387,15 @@ func main() {
 		for alpha = 1; alpha < len(alphabets); alpha++ {
 			all("direct", 4, true, false)
 		}
-	case "direct5": // n=5: every DAG-plus-one-edge neighbourhood of 40 fixed shapes is too coarse; instead all graphs with <=6 edges in one order and its reverse
+	case "direct5", "direct5-7": // n=5: all labelled graphs with <=5 (direct5-7: <=7) edges in three declaration orders (every labelling is enumerated, so every order of every shape is met)
 		n := 5
+		maxEdges := 5
+		if *common.Unit == "direct5-7" {
+			maxEdges = 7
+		}
 		perms := [][]int{{0, 1, 2, 3, 4}, {4, 3, 2, 1, 0}, {2, 0, 4, 1, 3}}
 		for mask := uint64(0); mask < 1<<uint(n*n); mask++ {
-			if popcount(mask) > 5 {
+			if popcount(mask) > maxEdges {
 				continue
 			}
 			es := edgesOf(n, mask)
